@@ -2,4 +2,4 @@
 Require Import ExtrOcamlBasic.
 Require Import SquidV.Bytes SquidV.PurgeModel.
 Extraction "m_purge.ml" request_of refetched evicted_keys method_of_image purges_others should_invalidate
-  resp_maybe_cacheable same_url_hosts url_is_relative uri_add_relative_path uri_set_path uri_absolute uri_encode.
+  resp_maybe_cacheable same_url_hosts url_is_relative uri_add_relative_path uri_set_path uri_absolute uri_encode encode_path.
